@@ -185,7 +185,7 @@ impl Datastore for ClnDatastore {
                 ),
                 string: Some(info),
                 hex: None,
-                mode: Some(DatastoreMode::MUST_REPLACE),
+                mode: Some(DatastoreMode::CREATE_OR_REPLACE),
                 generation: None,
             })
             .await?;
